@@ -1,4 +1,5 @@
 """C15 - the time scale is affine in elapsed time and invertible."""
+import math
 from datetime import timedelta
 from fractions import Fraction as F
 
@@ -19,7 +20,8 @@ RULE = (
     "monotonicity for instants >= 1 ms apart when 1 ms is worth more than the tolerance; invert within 1 ms inside the domain. "
     "Non-trivial: the query instant differs from both ends; distinct = distinct spec hash."
 )
-ASSUMPTIONS = ["tolerance 8*(7.3e12*2^-52)/span_ms*|r1-r0|*max(1, extrapolation) + 1e-9*max|r|: float64 resolution of epoch milliseconds in 2200"]
+ASSUMPTIONS = ["tolerance 8*(7.3e12*2^-52)/span_ms*|r1-r0|*max(1, extrapolation) + 1e-9*max|r|: float64 resolution of epoch milliseconds in 2200",
+               "invert round trip: 1 ms + 4 ulp(max|r|)/|r1-r0| * span_ms (the float resolution of the range value, expressed in time)"]
 MIN_FRACTIONS = {"inside": 0.3, "outside": 0.15, "reversed-domain": 0.15, "sub-second-span": 0.03}
 
 
@@ -89,8 +91,11 @@ def check(spec, ctx):
         ctx.event("inside" if inside else "outside")
         if inside:
             xi = lib_call(s.invert, y)
-            if abs((xi - x) / tg.MS) > 1:
-                raise Violation("invert", "invert(s(%s)) = %s" % (x, xi))
+            # one millisecond, plus what the float resolution of the range value itself is worth in time
+            # (a range 0.6 wide at magnitude 615 resolves a 250-year domain to about 1.4 ms)
+            inv_tol = 1 + 4 * math.ulp(rmax) / abs(r1 - r0) * spm
+            if abs((xi - x) / tg.MS) > inv_tol:
+                raise Violation("invert", "invert(s(%s)) = %s (tolerance %.3f ms)" % (x, xi, inv_tol))
         pts.append((mx, y, tol))
     (ma, ya, ta), (mb, yb, tb) = pts
     worth = abs(r1 - r0) / spm  # range units per ms
@@ -117,7 +122,7 @@ def check(spec, ctx):
         x = tg.from_ms(mx)
         y = lib_call(s, x)
         xi = lib_call(s.invert, y)
-        if abs((xi - x) / tg.MS) > 1:
+        if abs((xi - x) / tg.MS) > 1 + 4 * math.ulp(rmax) / abs(r1 - r0) * abs(n1 - n0):
             raise Violation("invert-after-domain-change", "scale used with domain [%s, %s], then given [%s, %s]: invert(s(%s)) = %s" % (d0, d1, e0, e1, x, xi))
         if lib_call(s, e0) != r0 or lib_call(s, e1) != r1:
             raise Violation("endpoints-after-domain-change", "second domain [%s, %s] does not map to the range ends" % (e0, e1))
